@@ -641,6 +641,12 @@ def gen_spec(rng, fmt=None, maxn=5, maxt=4, small=False):
             k = ts[3] // math.gcd(ts[3], ts[5])
             if k <= 30:
                 spec['nt'] = k
+            else:
+                # tiny grids on which the two layouts can coincide in size
+                nx_, ny_, nz_, nt_ = [(2, 1, 1, 2), (2, 2, 2, 5),
+                                      (1, 2, 3, 5), (2, 3, 1, 7),
+                                      (2, 1, 1, 4)][int(rng.integers(5))]
+                spec.update(nx=nx_, ny=ny_, nz=nz_, nt=nt_)
     elif fmt == 'landuse':
         spec['nt'] = 1
         spec['newstyle'] = bool(rng.random() < 0.5)
